@@ -88,6 +88,34 @@ STRENGTHENED = {
     'C20_m7': 'an input whose base name is no identifier (b-v2.1.prophy)',
     'C20_m8': 'runs into output directories that already hold same-named files: longer ones that begin like the new '
               'output, proper prefixes of it, unrelated content',
+    'C04_m9': 'C04 links the full codec and measures encode().size() / get_byte_size() of a default object of every '
+              'fixed type; optionals of unions and of structs whose C++ object is not wire-sized (canary)',
+    'C04_m10': 'sizeof of the raw struct of NON-fixed structs is modelled (packed main struct, one element per open '
+               'array, parts as trailing members) and compared, for g++ and clang++',
+    'C07_m9': 'not a missing observation but a budget problem: thousands of aborting cases restarted the instrumented '
+              'binary until the run timed out; restarts are capped per schema file',
+    'C08_m9': 'the schema written with a wrong composite/typedef type for some integer fields and put right by '
+              'patch `type` rules; same table',
+    'C08_m10': "every C08 worker first compiles a decoy file defining the helper types' names with the opposite "
+               'alignment class (also the first input of the two-file run)',
+    'C09_m9': 'two-file variant (an included and an including file compiled in one run) for the canary and wrapped files',
+    'C11_m10': 'extend() is given a list, a tuple, the source array itself or a one-shot iterable (generator, iter, reversed)',
+    'C14_m9': 'a second enum whose enumerators are built on each other and used as array sizes; enumerators of the main '
+              'enum may use earlier ones (in isar this is the recorded sibling-enumerator finding for the Python module)',
+    'C14_m10': 'constants and enumerators are also read back from the full codec header (.ppf.hpp); constants at and '
+               'below the 32-bit signed range down to -(1<<63)+1',
+    'C15_m9': 'a quarter of the permutations is compiled after another input of the same run that defines the same names',
+    'C15_m10': 'definitions called like a builtin that does not exist (u128, u24, i24, r8, r16, u1, i128) - found and '
+               'repaired bfaf69d on the way',
+    'C16_m10': 'arrangement I-order: two -I directories in non-alphabetical order, the second holding same-named files '
+               'with wider types',
+    'C17_m9': "a `type` rule and the array rule of the same field in both orders",
+    'C17_m10': 'constants built on each other without blanks (XK1*2, (XK1+XK2)+1) used as sizes; the constants written '
+               'in reverse order',
+    'C19_m9': 'NaN, infinities and denormals in the per-process float scenario',
+    'C20_m9': 'a comment-only file included by both inputs; a joint run that fails while each input compiles alone is '
+              'a violation',
+    'C20_m10': 'two inputs whose names agree up to the first dot (msg.v1.prophy, msg.v2.prophy)',
 }
 
 
